@@ -359,7 +359,8 @@ def dispatch_rule(run, ctx):
         c = H.canon(body)
         want = "self.%s(%s,0)" % (callee, TEXT)
         n_fwd += 1
-        if c != want:
+        # ... or the same one forwarding step further (position 0, no option flags)
+        if c != want and c != "self.%s_with_option_flags(%s,0,0)" % (callee, TEXT):
             run.violation(fam, label, "%s/forward" % sp, H.where(fn), "%s must be %s (same search as the *_from_pos form at position 0), found %s" % (sp, want, c[:80]))
     for sp in ("Regex::find_from_pos", "Regex::captures_from_pos"):
         fn = S.get_fn(run, ctx, sp, fam, label)
@@ -623,25 +624,28 @@ def replace_rule(run, ctx):
         tri = [k for k, ev in enumerate(rest) if ev.kind == "try-ok" and ev.a == ITEM]
         sl = [k for k, ev in enumerate(rest) if ev.kind == "call" and H.pat_match("%s.push_str(%s[%s..{m}.start()])" % (NEW, TEXT, LM), ev.a)]
         brk = any(ev.kind == "cond" and ev.b and ("%s" % LIMIT) in ev.a for ev in rest) and not sl
-        limc = [k for k, ev in enumerate(rest) if ev.kind == "cond" and H.pat_match("(0 < %s)" % LIMIT, ev.a)]
         if not tri:
             run.violation(fam, label, which + "/no-try", w, "the iterator item is not checked with `?` (a search error would be swallowed or unwrapped)")
             continue
-        if not limc:
+        # the limit: the loop is left exactly when limit > 0 && i >= limit -- decided from the conditions met on the
+        # path (any spelling: nested ifs, De Morgan, swapped operands)
+        pf = S.PathFacts(rest)
+        lim_pos = pf.proves("Ne", LIMIT, 0) or pf.proves("Gt", LIMIT, 0)
+        reached = pf.proves("Le", LIMIT, I_)
+        lim_zero = pf.proves("Eq", LIMIT, 0) or pf.proves("Le", LIMIT, 0)
+        below = pf.proves("Lt", I_, LIMIT)
+        mentions = any(ev.kind == "cond" and re.search(r"(?<![\w.])%s(?![\w(])" % re.escape(LIMIT), ev.a or "") for ev in rest)
+        if not mentions:
             run.violation(fam, label, which + "/limit-test", w, "no `limit > 0 && i >= limit` test in the %s loop" % which)
             continue
-        # the limit condition must be exactly: limit > 0 && i >= limit  => break
-        lc = rest[limc[0]]
-        if lc.b:
-            ge = [ev for ev in rest[limc[0] + 1:limc[0] + 3] if ev.kind == "cond" and H.pat_match("(%s <= %s)" % (LIMIT, I_), ev.a)]
-            if not ge:
-                run.violation(fam, label, which + "/limit-cmp", w, "after `limit > 0` the loop must test `i >= limit` (found %s)" % [e.a for e in rest[limc[0] + 1:limc[0] + 3] if e.kind == "cond"])
-                continue
-            if ge[0].b:
-                # break: nothing more is replaced on this iteration
-                if sl:
-                    run.violation(fam, label, which + "/replace-after-limit", w, "a match beyond the limit is still replaced")
-                continue
+        if not sl:
+            # nothing replaced on this iteration: only allowed because the limit was reached
+            if not (lim_pos and reached):
+                run.violation(fam, label, which + "/limit-cmp", w, "the %s loop stops replacing on a path where `limit > 0 && i >= limit` is not established" % which)
+            continue
+        if not (lim_zero or below):
+            run.violation(fam, label, which + "/replace-after-limit", w, "a match is replaced on a path where neither `limit == 0` nor `i < limit` holds: a match beyond the limit is still replaced")
+            continue
         if not sl:
             run.violation(fam, label, which + "/gap", w, "the text between the previous match and this one is not copied (push_str(&text[last_match..m.start()]))")
             continue
@@ -719,8 +723,27 @@ def replacer_rule(run, ctx):
         else:
             stringlike += 1
             if not H.pat_match("replacer::no_expansion(self)", c) and not H.pat_match("no_expansion(self)", c):
-                run.violation(fam, label, "stringlike/" + st, H.where(hb), "string-like Replacer %s must decide no_expansion through the shared helper, found %s" % (st, c))
-    helper = S.get_fn(run, ctx, "replacer::no_expansion", fam, label)
+                # written out (or through a helper that was inlined): the same decision, path by path
+                good = True
+                kinds_ = set()
+                for p in S.paths_of(hb["body"]):
+                    v = S.ret_value(p)
+                    if v is None:
+                        continue
+                    sm = S.Summary(p)
+                    cd = [(t, tr) for t, tr, _, _ in sm.conds if H.pat_match("{s}.contains('$')", t)]
+                    if not cd or H.pat_match("{s}.contains('$')", cd[-1][0]).group("s") != "self":
+                        good = False
+                        break
+                    kinds_.add(bool(cd[-1][1]))
+                    if cd[-1][1]:
+                        good = good and sm.val == "None"
+                    else:
+                        good = good and H.pat_match("Some({*c}Borrowed(self))", sm.val or "") is not None
+                if not good or kinds_ != {True, False}:
+                    run.violation(fam, label, "stringlike/" + st, H.where(hb), "string-like Replacer %s must decide no_expansion through the shared helper (or the same test: Some(Borrowed(self)) exactly when the text contains no '$'), found %s" % (st, c))
+    helper = S.find_fn(ctx, "replacer::no_expansion")
+    helper = helper[0] if helper else None
     if helper is not None:
         ps = S.paths_of(helper["body"])
         okk = 0
